@@ -305,3 +305,26 @@ pub fn main(tier: Tier, seed: u64) -> i32 {
     ];
     rep.finish()
 }
+
+/// Debug: skeleton extraction and model size for n=3.
+pub fn skel_debug(seed: u64) -> i32 {
+    let case = cases_for(3, 0);
+    let t = std::time::Instant::now();
+    match skel::extract(&case, Some(1), mix(seed, 12)) {
+        Ok(ex) => {
+            println!("extracted in {:.1}s: ops {:?}, starve runs {}", t.elapsed().as_secs_f64(), ex.skel.ops.iter().map(|o| o.len()).collect::<Vec<_>>(), ex.starve_runs);
+            let mut sk = ex.skel.clone();
+            for cap in [Some(1), Some(2)] {
+                sk.capacity = cap;
+                let t = std::time::Instant::now();
+                let mr = skel::check_model(&sk, 300);
+                println!("cap {cap:?}: bfs {} dfs {} depth {} violations {:?} completed {} timed_out {} in {:.1}s", mr.states_bfs, mr.states_dfs, mr.max_depth, mr.violations, mr.completed, mr.timed_out, t.elapsed().as_secs_f64());
+            }
+            0
+        }
+        Err(e) => {
+            println!("extract failed: {e}");
+            2
+        }
+    }
+}
